@@ -351,6 +351,13 @@ impl<'tcx> Cx<'tcx> {
                 let di = self.def(uv.def);
                 o.push(("uneval", J::Int(di as i128)));
                 o.push(("args", self.args_j(uv.args)));
+                // monomorphic scalar constants (digit::u64::BIT_SHIFT, ...) are evaluated by rustc's CTFE
+                if uv.promoted.is_none() && uv.args.is_empty() && (ty.is_integral() || ty.is_bool()) {
+                    let env = TypingEnv::fully_monomorphized();
+                    if let Some(i) = c.const_.try_eval_scalar_int(tcx, env) {
+                        o.push(("cv", J::UInt(i.to_bits_unchecked())));
+                    }
+                }
                 if let Some(p) = uv.promoted {
                     o.push(("promoted", J::Int(p.as_usize() as i128)));
                 }
